@@ -1,6 +1,6 @@
 SPECIFICATION Spec
 CONSTANTS
-  Modes = {"legacy"}
+  Versions = {754}
   PackNames = {"A", "B"}
   Statuses = {"accepted", "declined", "success"}
   MaxLen = 3
